@@ -14,6 +14,7 @@ def plan(tier, ctx):
         img = loader.build_image(ctx.repo, [rel], ctx.scratch, with_stubs=True)
         for fn in sorted(s[:-len("_dispatched")] for s in img.symbols if s.endswith("_dispatched")):
             qs.append(Query("resolver-purity/%s/%s" % (key, fn), "harness.C15.x86:purity_query", dict(file=key, fn=fn), core=True, family="resolver-purity/" + key))
+    qs.append(Query("library-writable-objects", "harness.C15.x86:writable_objects_query", {}, core=True, family="library-writable-objects"))
     # a few kernels per family re-run with the store monitor: writes only to caller-declared destinations and the own stack frame
     qs.append(Query("kernel-writes/zero", "harness.C20.x86:zero_query", dict(variant="avx2", lens=[0, 1, 31, 64, 200], offsets=[0, 5]), family="kernel-writes"))
     qs.append(Query("kernel-writes/pq_gen", "harness.C08.x86:raid_query", dict(kernel="pq_gen_avx2", cases=[[5, 64, 0], [6, 128, 32]]), family="kernel-writes"))
